@@ -35,18 +35,18 @@ def main():
     if os.path.exists(demo):
         shutil.copy(demo, os.path.join(out, "demo.py"))
         rc_with, o_with = sh("/venv/bin/python -W ignore demo.py", wt, 1200)
-        sh("git diff > /tmp/eval_seeded_p.patch && git apply -R /tmp/eval_seeded_p.patch", wt)
+        sh("git diff > /tmp/eval_seeded_p_%s.patch && git apply -R /tmp/eval_seeded_p_%s.patch" % (name, name), wt)
         rc_without, o_without = sh("/venv/bin/python -W ignore demo.py", wt, 1200)
-        sh("git apply /tmp/eval_seeded_p.patch", wt)
+        sh("git apply /tmp/eval_seeded_p_%s.patch" % name, wt)
         meta["demo"] = {"exit_with_change": rc_with, "exit_without_change": rc_without, "tail_with_change": o_with[-600:], "tail_without": o_without[-300:]}
         print("demo: with change exit", rc_with, "| without", rc_without)
     if "--no-pytest" not in sys.argv:
         t0 = time.time()
-        rc, o = sh("/venv/bin/python -m pytest -q -p no:cacheprovider --timeout=900 --continue-on-collection-errors --junitxml=/tmp/eval_seeded_junit.xml", wt, 3000)
+        rc, o = sh("/venv/bin/python -m pytest -q -p no:cacheprovider --timeout=900 --continue-on-collection-errors --junitxml=/tmp/eval_seeded_junit_%s.xml" % name, wt, 3000)
         base = json.load(open("/root/.vp/BASELINE.json"))
         res = {}
         try:
-            for tc in ET.parse("/tmp/eval_seeded_junit.xml").getroot().iter("testcase"):
+            for tc in ET.parse("/tmp/eval_seeded_junit_%s.xml" % name).getroot().iter("testcase"):
                 nm = tc.get("classname") + "::" + tc.get("name")
                 res[nm] = "fail" if [c for c in tc if c.tag in ("failure", "error", "skipped")] else "pass"
         except Exception as e:
